@@ -2,6 +2,7 @@ SPECIFICATION Spec
 CONSTANTS Consts = {a, b, c}
  MaxOps = 2
  Queries = TRUE
+ ChainMode = FALSE
  EmitAll = FALSE
 SYMMETRY Symm
 INVARIANT TestCorrect
